@@ -99,6 +99,9 @@ class GradientEvaluator(Evaluator):
         self.to_evaluate.extend(individual.children)
 
     def evaluate(self, individuals):
+        # evaluate the designs first: a failed evaluation replaces the vector (Job.evaluate),
+        # the +delta children must belong to the vector that is finally stored
+        super().evaluate(individuals)
         for individual in individuals:
             self.add(individual)
         self.run()
@@ -106,6 +109,7 @@ class GradientEvaluator(Evaluator):
     def evaluate_scalar(self, x):
         individual = Individual(x)
 
+        self.job.evaluate(individual)
         self.add(individual)
         self.run()
         self.algorithm.problem.individuals.append(individual)
